@@ -9,6 +9,7 @@ import Pyiga.Proofs.MLRows
 import Pyiga.Proofs.MLSparsity
 import Pyiga.Proofs.MLMatvec
 import Pyiga.Proofs.MLGenerator
+import Pyiga.Proofs.MLKron
 
 namespace Pyiga.Props.C15
 open Pyiga.Index Pyiga.ML
@@ -337,6 +338,24 @@ theorem reorder_entry (S : MLStructure) (axes μ : List Nat) :
 example : ({ bs := [(2,2),(3,3)], bidx := [[(1,0)],[(0,2),(2,1)]] } : MLStructure).entryAt [0, 1] = (5, 1) ∧
     (({ bs := [(2,2),(3,3)], bidx := [[(1,0)],[(0,2),(2,1)]] } : MLStructure).reorder [1, 0]).entryAt [1, 0] = (5, 2) := by
   decide
+
+/-- **the compact data of a Kronecker product**: for `S = MLStructure.from_kronecker(As)` (factors with stored
+positions in range and pairwise distinct, as scipy hands them over) the data-tensor index `μ` sits at a
+position where the dense Kronecker product `A_1 ⊗ … ⊗ A_L` has the value `∏_k A_k.data[μ_k]`; a data tensor
+holding the outer product of the factors' stored values therefore denotes exactly the Kronecker product
+(with `nonzero_support_kron`: same support, same values), for any number of rectangular factors. -/
+theorem kron_data_layout (As : List SpMat) (hwf : ∀ A ∈ As, A.WF) (μ : List Nat)
+    (hμ : Below μ (fromKronecker As).NN) :
+    kronValue As ((fromKronecker As).entryAt μ).1 ((fromKronecker As).entryAt μ).2
+      = ((As.zip μ).map (fun (am : SpMat × Nat) => (am.1.ent.getD am.2 (0, 0, 0)).2.2)).foldl (· * ·) 1 :=
+  kron_value_at As hwf μ hμ
+
+example : (⟨2, 3, [(0,1,2),(1,2,3)]⟩ : SpMat).WF ∧ (⟨1, 2, [(0,0,5),(0,1,7)]⟩ : SpMat).WF ∧
+    Below [1, 1] (fromKronecker [⟨2, 3, [(0,1,2),(1,2,3)]⟩, ⟨1, 2, [(0,0,5),(0,1,7)]⟩]).NN ∧
+    (fromKronecker [⟨2, 3, [(0,1,2),(1,2,3)]⟩, ⟨1, 2, [(0,0,5),(0,1,7)]⟩]).entryAt [1, 1] = (1, 5) ∧
+    kronValue [⟨2, 3, [(0,1,2),(1,2,3)]⟩, ⟨1, 2, [(0,0,5),(0,1,7)]⟩] 1 5 = 21 := by
+  refine ⟨⟨by decide, by decide⟩, ⟨by decide, by decide⟩, ?_, by decide, by decide⟩
+  simp [fromKronecker, MLStructure.NN, Below]
 
 /-! ## the matrix-vector product -/
 
